@@ -61,7 +61,7 @@ type c12Step struct {
 
 type ariIssuer struct {
 	key string
-	env *c12Env
+	ctr *int
 }
 
 func (i ariIssuer) IssuerKey() string { return i.key }
@@ -69,8 +69,8 @@ func (i ariIssuer) Issue(ctx context.Context, csr *x509.CertificateRequest) (*ce
 	return nil, fmt.Errorf("ariIssuer does not issue")
 }
 func (i ariIssuer) GetRenewalInfo(ctx context.Context, cert certmagic.Certificate) (acme.RenewalInfo, error) {
-	i.env.ariCounter++
-	return acme.RenewalInfo{ExplanationURL: fmt.Sprintf("i%d", i.env.ariCounter)}, nil
+	*i.ctr++
+	return acme.RenewalInfo{ExplanationURL: fmt.Sprintf("i%d", *i.ctr)}, nil
 }
 
 type c12Env struct {
@@ -79,7 +79,8 @@ type c12Env struct {
 	cache      *certmagic.Cache
 	getter     certmagic.ConfigGetter
 	cap        int
-	ariCounter int
+	ariCounter *int
+	panics     []string // implementation panics seen (the environment is rebuilt after each)
 	chains     map[string]tls.Certificate // pool hash -> real chain (Leaf set)
 	pems       map[string][]byte
 	hello      *tls.ClientHelloInfo
@@ -114,11 +115,11 @@ func c12PoolByHash(h string) *c12Info {
 }
 
 func newC12Env() (*c12Env, error) {
-	env := &c12Env{backend: doubles.NewMemBackend(), chains: map[string]tls.Certificate{}, pems: map[string][]byte{}}
+	env := &c12Env{backend: doubles.NewMemBackend(), chains: map[string]tls.Certificate{}, pems: map[string][]byte{}, ariCounter: new(int)}
 	ca := doubles.NewCA("c12 CA")
 	st := env.backend.Handle("c12")
 	cfg, cache := doubles.NewConfig(st, certmagic.Config{DisableARI: false}, certmagic.CacheOptions{},
-		ariIssuer{"i1", env}, ariIssuer{"i2", env})
+		ariIssuer{"i1", env.ariCounter}, ariIssuer{"i2", env.ariCounter})
 	env.cfg, env.cache = cfg, cache
 	env.getter = func(certmagic.Certificate) (*certmagic.Config, error) { return cfg, nil }
 	env.hello, env.closeHello = doubles.Hello("a.x")
@@ -170,7 +171,7 @@ func (env *c12Env) reset(capacity int) {
 	env.cache.VerifReset()
 	env.backend.Log.Hook = nil
 	env.backend.Log.Ops = nil
-	env.ariCounter = 0
+	*env.ariCounter = 0
 	env.feat = map[string]int{}
 }
 
@@ -265,8 +266,17 @@ func c12Victim(before, after c12Snap, except string) string {
 }
 
 // exec runs one concrete operation on the implementation and returns the abstract steps.
-func (env *c12Env) exec(op *c12Op) ([]c12Step, error) {
-	var steps []c12Step
+// errC12Panic marks an implementation panic: the steps observed before it are still returned.
+type errC12Panic struct{ msg string }
+
+func (e errC12Panic) Error() string { return e.msg }
+
+func (env *c12Env) exec(op *c12Op) (steps []c12Step, err error) {
+	defer func() {
+		if r := recover(); r != nil {
+			err = errC12Panic{fmt.Sprintf("implementation panicked in %s: %v", op.Kind, r)}
+		}
+	}()
 	emitStep := func(abs string, e *emit.Enc) {
 		steps = append(steps, c12Step{Abs: abs, wire: e, Snap: env.snap()})
 	}
@@ -286,9 +296,9 @@ func (env *c12Env) exec(op *c12Op) ([]c12Step, error) {
 			}
 			fired = true
 			env.backend.Log.Hook = nil
-			in, err := env.exec(op.Inner)
-			if err != nil {
-				innerErr = err
+			in, ierr := env.exec(op.Inner)
+			if ierr != nil {
+				innerErr = ierr
 			}
 			steps = append(steps, in...)
 			env.feat["interleaved"]++
@@ -462,6 +472,17 @@ func (env *c12Env) exec(op *c12Op) ([]c12Step, error) {
 
 func (env *c12Env) snapNoCount() c12Snap { return env.snap() }
 
+// rebuild replaces the environment after an implementation panic (a mutex may be left locked).
+func (env *c12Env) rebuild(msg string) error {
+	n, err := newC12Env()
+	if err != nil {
+		return err
+	}
+	n.panics = append(env.panics, msg)
+	*env = *n
+	return nil
+}
+
 type c12Hist struct {
 	Cap int     `json:"cap"`
 	Ops []c12Op `json:"ops"`
@@ -471,12 +492,25 @@ type c12Hist struct {
 func (env *c12Env) runHist(w *emit.Writer, h c12Hist, class string) error {
 	env.reset(h.Cap)
 	var steps []c12Step
+	panicked := false
 	for i := range h.Ops {
 		st, err := env.exec(&h.Ops[i])
+		steps = append(steps, st...)
+		if pe, ok := err.(errC12Panic); ok {
+			// keep what was observed up to the panic (a corrupted state shows there), start afresh
+			feat := env.feat
+			if rerr := env.rebuild(pe.msg); rerr != nil {
+				return rerr
+			}
+			env.reset(h.Cap)
+			env.feat = feat
+			env.feat["impl_panic"]++
+			panicked = true
+			break
+		}
 		if err != nil {
 			return fmt.Errorf("history %v: %w", h, err)
 		}
-		steps = append(steps, st...)
 	}
 	e := &emit.Enc{}
 	e.Int(h.Cap)
@@ -495,15 +529,19 @@ func (env *c12Env) runHist(w *emit.Writer, h c12Hist, class string) error {
 		encSnap(e, s.Snap)
 		obs = append(obs, obsStep{s.Abs, s.Snap})
 	}
-	e.Len(len(c12Queries))
 	qres := map[string][]string{}
-	for _, q := range c12Queries {
-		var hs []string
-		for _, c := range env.cache.AllMatchingCertificates(q) {
-			hs = append(hs, c.Hash())
+	if panicked {
+		e.Len(0) // the environment was rebuilt: no final queries
+	} else {
+		e.Len(len(c12Queries))
+		for _, q := range c12Queries {
+			var hs []string
+			for _, c := range env.cache.AllMatchingCertificates(q) {
+				hs = append(hs, c.Hash())
+			}
+			e.Str(q).StrList(hs)
+			qres[q] = hs
 		}
-		e.Str(q).StrList(hs)
-		qres[q] = hs
 	}
 	nt := env.feat["evict"]+env.feat["remove_hit"]+env.feat["tagmerge"]+env.feat["writeback_applied"]+
 		env.feat["writeback_refused_stale"]+env.feat["replace_stale_old"] > 0
@@ -644,7 +682,13 @@ func c12RandHist(r *rand.Rand, env *c12Env) c12Hist {
 			}
 		}
 		if _, err := env.exec(&op); err != nil {
-			// generation-time failure: drop the op (it is re-run for real in runHist)
+			if pe, ok := err.(errC12Panic); ok {
+				// keep the op (runHist re-runs it and records what is observed) and stop here
+				env.rebuild(pe.msg)
+				h.Ops = append(h.Ops, op)
+				break
+			}
+			// generation-time failure: drop the op
 			continue
 		}
 		h.Ops = append(h.Ops, op)
@@ -749,5 +793,10 @@ func runC12(tier string, seed int64, outdir string, replay string) error {
 		}
 	}
 	w.Meta.Notes = append(w.Meta.Notes, "pool: "+strings.TrimSpace(fmt.Sprint(c12PoolDef)))
+	det := strings.Join(env.panics, "; ")
+	if len(det) > 400 {
+		det = det[:400]
+	}
+	w.Meta.Oracles = append(w.Meta.Oracles, emit.OracleCheck{Name: "no cache operation panicked", OK: len(env.panics) == 0, Detail: det})
 	return nil
 }
